@@ -922,6 +922,93 @@ fn split_runs(rng: &mut Rng, opts: &Opts, report: &mut Report) {
     }
 }
 
+/// Two sending links whose handles the peer numbers the other way round (ours 0 / 1, the peer's 1 / 0).
+/// (1) an unsettled delivery is outstanding on the second link when the first is closed; the peer then
+/// accepts it: the send resolves with that outcome.  (2) a further delivery is accepted and settled, the
+/// session is ended, and only then is the future of that send awaited: it still yields the outcome that had
+/// arrived.  Returns the two results.
+pub fn run_two_links_then_end() -> Result<(String, String), String> {
+    let rt = paused_runtime();
+    rt.block_on(async move {
+        let (cio, pio) = tokio::io::duplex(1 << 20);
+        let mut peer = Peer::new(pio);
+        let e = |x: PeerError| format!("{:?}", x);
+        let client = tokio::spawn(async move {
+            let mut conn = Connection::builder().container_id("c02-two").open_with_stream(cio).await.map_err(|e| format!("open: {:?}", e))?;
+            let mut session = Session::begin(&mut conn).await.map_err(|e| format!("begin: {:?}", e))?;
+            let a = Sender::builder().name("a").target("q").attach(&mut session).await.map_err(|e| format!("attach a: {:?}", e))?;
+            let mut b = Sender::builder().name("b").target("q").attach(&mut session).await.map_err(|e| format!("attach b: {:?}", e))?;
+            let fut1 = b.send_batchable("one").await.map_err(|e| format!("send one: {:?}", e))?;
+            tokio::time::sleep(Duration::from_millis(50)).await;
+            a.close().await.map_err(|e| format!("close a: {:?}", e))?;
+            let r1 = match tokio::time::timeout(Duration::from_secs(3), fut1).await {
+                Err(_) => "pending".to_string(),
+                Ok(Ok(o)) => format!("{:?}", o).split('(').next().unwrap_or("").to_string(),
+                Ok(Err(e)) => format!("err:{:?}", e),
+            };
+            let fut2 = b.send_batchable("two").await.map_err(|e| format!("send two: {:?}", e))?;
+            // the peer accepts and settles; the client's engines apply it
+            tokio::time::sleep(Duration::from_millis(200)).await;
+            let _ = tokio::time::timeout(Duration::from_secs(3), session.end()).await;
+            let r2 = match tokio::time::timeout(Duration::from_secs(3), fut2).await {
+                Err(_) => "pending".to_string(),
+                Ok(Ok(o)) => format!("{:?}", o).split('(').next().unwrap_or("").to_string(),
+                Ok(Err(e)) => format!("err:{:?}", e),
+            };
+            let _ = tokio::time::timeout(Duration::from_secs(3), conn.close()).await;
+            Ok::<_, String>((r1, r2))
+        });
+        peer.accept_open(&PeerOpen::default()).await.map_err(e)?;
+        peer.accept_begin(0, 0, 2048, 2048).await.map_err(e)?;
+        // the peer's handles: 1 for the client's link 0, 0 for the client's link 1
+        let mut ours_of: std::collections::HashMap<u32, u32> = Default::default();
+        let mut transfers = 0u32;
+        let mut held: Option<u32> = None;
+        peer.recv_timeout = Duration::from_secs(8);
+        loop {
+            match peer.recv_frame().await {
+                Ok((_, Performative::Attach(a), _)) => {
+                    let ours = 1 - a.handle.0.min(1);
+                    ours_of.insert(a.handle.0, ours);
+                    let at = Attach { name: a.name.clone(), handle: Handle(ours), role: Role::Receiver, snd_settle_mode: a.snd_settle_mode.clone(), rcv_settle_mode: ReceiverSettleMode::First, source: a.source.clone(), target: a.target.clone(), unsettled: None, incomplete_unsettled: false, initial_delivery_count: None, max_message_size: None, offered_capabilities: None, desired_capabilities: None, properties: None };
+                    peer.send(0, Performative::Attach(at), &[]).await.map_err(e)?;
+                    let f = Flow { next_incoming_id: Some(transfers), incoming_window: 2048, next_outgoing_id: 0, outgoing_window: 2048, handle: Some(Handle(ours)), delivery_count: Some(a.initial_delivery_count.unwrap_or(0)), link_credit: Some(10), available: None, drain: false, echo: false, properties: None };
+                    peer.send(0, Performative::Flow(f), &[]).await.map_err(e)?;
+                }
+                Ok((_, Performative::Transfer(t), _)) => {
+                    transfers += 1;
+                    let id = t.delivery_id.unwrap_or(0);
+                    if held.is_none() && transfers == 1 {
+                        // the first delivery waits until the other link has been closed
+                        held = Some(id);
+                    } else {
+                        let d = Disposition { role: Role::Receiver, first: id, last: None, settled: true, state: Some(state_of(0)), batchable: false };
+                        peer.send(0, Performative::Disposition(d), &[]).await.map_err(e)?;
+                    }
+                }
+                Ok((_, Performative::Detach(d), _)) => {
+                    let ours = ours_of.get(&d.handle.0).copied().unwrap_or(d.handle.0);
+                    peer.send(0, Performative::Detach(fe2o3_amqp_types::performatives::Detach { handle: Handle(ours), closed: d.closed, error: None }), &[]).await.map_err(e)?;
+                    if let Some(id) = held.take() {
+                        let disp = Disposition { role: Role::Receiver, first: id, last: None, settled: true, state: Some(state_of(0)), batchable: false };
+                        peer.send(0, Performative::Disposition(disp), &[]).await.map_err(e)?;
+                    }
+                }
+                Ok((_, Performative::End(_), _)) => {
+                    peer.send(0, Performative::End(fe2o3_amqp_types::performatives::End { error: None }), &[]).await.map_err(e)?;
+                }
+                Ok((_, Performative::Close(_), _)) => {
+                    let _ = peer.close_politely().await;
+                    break;
+                }
+                Ok(_) => {}
+                Err(_) => break,
+            }
+        }
+        tokio::time::timeout(Duration::from_secs(60), client).await.map_err(|_| "the client did not finish".to_string())?.map_err(|e| format!("{:?}", e))?
+    })
+}
+
 pub fn main(opts: &Opts) {
     let mut report = Report::new(
         "C02",
@@ -1224,6 +1311,25 @@ pub fn main(opts: &Opts) {
                 report.count_n("receiver_cases_disagreeing_with_model", bad);
             }
             Err(e) => report.notes.push(format!("model driver failed: {}", e)),
+        }
+    }
+    // two links with crossed handles, one closed while the other has a delivery outstanding; an outcome that
+    // arrived before the session was ended and is asked for afterwards
+    {
+        report.evaluations += 1;
+        report.count("two_links_then_end");
+        report.nontrivial_case(fnv("two-links-then-end"));
+        let replay = json!({"property": "C02", "module": "settle", "two_links_then_end": true});
+        match run_two_links_then_end() {
+            Ok((r1, r2)) => {
+                if r1 != "Accepted" {
+                    report.finding(Finding { kind: "violation", key: "send-never-resolved:other-link-closed".into(), description: format!("links a / b (ours 0 / 1, the peer's 1 / 0): a delivery on b was outstanding when a was closed; the peer then accepted it; the send on b resolved as `{}`", r1), replay: replay.clone() });
+                }
+                if r2 != "Accepted" {
+                    report.finding(Finding { kind: "violation", key: "wrong-outcome:asked-after-the-session-ended".into(), description: format!("a delivery was accepted and settled by the peer, the session was then ended, and the future of the send awaited afterwards yields `{}`", r2), replay });
+                }
+            }
+            Err(e) => report.finding(Finding { kind: "violation", key: "two-links-scenario-failed".into(), description: e, replay }),
         }
     }
     // a sending link on the listener side whose acceptor supports fewer receiver-settle-modes than the peer asks
